@@ -262,6 +262,10 @@ func (ex *Exec) lazyInit(g *ssa.Global) {
 		return
 	}
 	ex.lazyIn[g] = true
+	// initialisation happens before any operation in a real program: not part of a footprint
+	savedFP := ex.fp
+	ex.fp = nil
+	defer func() { ex.fp = savedFP }()
 	list := ex.eng.lazySlice(g, initFn)
 	if len(list) == 0 {
 		return // zero-initialised global
